@@ -110,7 +110,7 @@ func (w *world) menu0(t smartcontract.ParamType) []argv {
 		return []argv{{"abc", "abc"}, {"empty", ""}, {"run", "run"}, {"other", "other"}, {"10", "10"}, {"1f", "1f"}, {"YWJj", "YWJj"}, {"url", "https://x.y/z"}, {"json", "[1,2]"}, {"cb", "cb"}, {"base58check", base58.CheckEncode([]byte("abc"))}}
 	case smartcontract.ByteArrayType:
 		return []argv{{"abc", []byte("abc")}, {"pub1", pub(1)}, {"sig", sig}, {"empty", []byte{}}, {"idx1", []byte{1}}, {"blockhash", w.blkHash.BytesBE()}, {"txhash", w.txHash.BytesBE()},
-			{"serialized", ser}, {"json", []byte("[1]")}, {"nef", w.nefBytes}, {"manifestNew", w.mfNew}, {"manifestUA", w.mfUA}, {"blsG1", blsG1}, {"scalar32", append([]byte{3}, make([]byte, 31)...)}}
+			{"serialized", ser}, {"json", []byte("[1]")}, {"nefD", w.nefD}, {"manifestNewD", w.mfNewD}, {"manifestUA-D", w.mfUAD}, {"nefU", w.nefBytes}, {"manifestNewU", w.mfNew}, {"manifestUA-U", w.mfUA}, {"blsG1", blsG1}, {"scalar32", append([]byte{3}, make([]byte, 31)...)}}
 	case smartcontract.Hash256Type:
 		return []argv{{"tx", w.txHash}, {"block", w.blkHash}, {"absent", util.Uint256{9, 9, 9}}}
 	case smartcontract.PublicKeyType:
